@@ -534,6 +534,16 @@ def r4_order(program, folder, rep):
         ("elem", ("comp", E, 1))]
     rep.check(oka, "C12-R4", inst, "each target core is inserted under its "
               "chip's own (x, y)", construct="add_core arguments", node=fn)
+    if oka:
+        guards = T.all_facts(adds[0][0])
+        rep.check(not guards, "C12-R4", inst, "every core of every target "
+                  "chip is inserted: nothing filters the chips or cores",
+                  construct="all targets inserted", node=fn,
+                  fail="cores are inserted only when %s: a requested core "
+                       "(e.g. core 0, which is falsy) can be left out of "
+                       "the regions" % " and ".join(
+                           "%s%s" % ("" if p_ else "not ", show(t)[:60])
+                           for t, p_ in guards))
     add = program.get(TREE + ".add_core")
     A = Terms(add)
     P_ = ("param", formals(add)[3])
